@@ -1,5 +1,5 @@
 (* C05 - Decoding terminates with work bounded by the frame size. *)
-From MQ Require Import Model.Stream Proofs.StreamP Proofs.DecP Proofs.ReadP.
+From MQ Require Import Model.Stream Proofs.StreamP Proofs.DecP Proofs.ReadP Proofs.BoundP.
 
 (* Every loop of the decoders (property loop, SUBSCRIBE/UNSUBSCRIBE
    filter loops, reason codes) is run in the model on fuel
@@ -15,6 +15,22 @@ Print Assumptions C05_terminates.
 Theorem C05_read_terminates : forall s, read_packet s <> RPFuel.
 Proof. intros s. destruct (read_packet_total s) as [r [E _]]. rewrite E. discriminate. Qed.
 Print Assumptions C05_read_terminates.
+
+(* A decoded packet never holds more list elements - user properties (also
+   of the will), subscription identifiers, topic filters, reason codes -
+   than the data has bytes, on top of what the receiver held before: every
+   append is paid for by a byte of input. (When decoding fails, one more
+   element may have been appended on the way out of a filter loop; then no
+   packet is returned by ReadPacket.) For every packet type, receiver state
+   and byte string. *)
+Theorem C05_lists_bounded : forall k p0 data,
+  match unmarshal k p0 data with
+  | UOk p => (lsize p <= lsize p0 + length data)%nat
+  | UErr _ p => (lsize p <= lsize p0 + length data + 1)%nat
+  | _ => True
+  end.
+Proof. exact unmarshal_bound. Qed.
+Print Assumptions C05_lists_bounded.
 
 (* witness of the pinned tree's endless loop: now an error *)
 Example C05_witness :
